@@ -64,6 +64,20 @@ func main() {
 				emit(w, runDebugPair(c))
 			}
 		}
+	case "probes":
+		for _, l := range runProbes() {
+			fmt.Fprintln(w, l)
+		}
+	case "malformed":
+		rng := rand.New(rand.NewSource(*seed))
+		for i := 0; i < *n; i++ {
+			cs := rng.Int63()
+			if i < *start {
+				continue
+			}
+			c := genMalformed(rand.New(rand.NewSource(cs)), i, cs)
+			emit(w, runCase(c))
+		}
 	case "history":
 		rng := rand.New(rand.NewSource(*seed))
 		for i := 0; i < *n; i++ {
